@@ -20,7 +20,7 @@ UPSERT_FIXED_LOOPS = {
 }
 
 UPSERT_FIXED_ANCHORS = [
-    {"after": "let tuple = (value, expiry);", "proof": "let ghost tup = tuple; let ghost mut g_dd: Option<int> = None; assert(is_now(now)); assert(now.add_req(ttl)); assert(inst(expiry) == inst(now) + dur(ttl));"},
+    {"after": "if let Some(partition) = self.partitions.get_mut(&partition_key) {", "at": "before", "proof": "let ghost tup = tuple; let ghost mut g_dd: Option<int> = None; assert(is_now(now)); assert(now.add_req(ttl)); assert(inst(expiry) == inst(now) + dur(ttl));"},
     {"after": "if let Some(partition) = self.partitions.get_mut(&partition_key) {",
      "proof": "let ghost p0 = *partition; proof { lemma_map_sum_insert(old(self).partitions@, psize::<K2, V>(), partition_key, p0); }"},
     {"after": "if let Some(tuples) = partition.records.get_mut(&record_key) {", "proof": "let ghost t0 = tuples@;"},
